@@ -505,7 +505,10 @@ Section WithCipher.
       [SetActive seq] = database.set("nwkActiveKeySeqNumber", seq) (used by the transmit path only).
       [RemoveKey key] = the material with that key taken out of nwkSecurityMaterialSet
       (list.remove on the NWKIB attribute, then database.set). *)
-  Inductive mgmt : Type := AddKey (key : bytes) (seq : N) | SetActive (seq : N) | RemoveKey (key : bytes).
+  Inductive mgmt : Type :=
+  | AddKey (key : bytes) (seq : N) | SetActive (seq : N) | RemoveKey (key : bytes)
+  | ClearKeys.   (* the whole material set dropped: NLME-RESET (cold) / NLME-SET of an empty nwkSecurityMaterialSet;
+                    followed by AddKey this is the replacement of the key material, possibly under the same sequence number *)
   Inductive hitem : Type := HPdu (p : npdu) | HMgmt (m : mgmt).
 
   Fixpoint has_key (key : bytes) (ms : list material) : bool :=
@@ -526,6 +529,7 @@ Section WithCipher.
                         else (with_mats st (n_mats st ++ [mkMat seq key []]), act)
     | SetActive seq => (st, seq)
     | RemoveKey key => (with_mats st (remove_key key (n_mats st)), act)
+    | ClearKeys => (with_mats st [], act)
     end.
 
   Definition hstep (hs : hstate) (it : hitem) : option outcome * hstate :=
@@ -722,7 +726,7 @@ Fixpoint fresh_hist_k (T : bytes -> bytes -> option N) (evs : list kevent) : Pro
 
 (** a history that never removes the material holding [K] *)
 Definition never_removes (K : bytes) (items : list hitem) : Prop :=
-  Forall (fun it => match it with HMgmt (RemoveKey K') => K' <> K | _ => True end) items.
+  Forall (fun it => match it with HMgmt (RemoveKey K') => K' <> K | HMgmt ClearKeys => False | _ => True end) items.
 
 (** ** correspondence entry points (evaluated by the harness with E := aes128_enc) *)
 
